@@ -119,6 +119,8 @@ def load_job_payload(job: Dict[str, Any], work: Path):
                 gens.append(adv.Adversary(job["seed"] * 7 + k, label=f"Adversary{k}", p_instr=0.3))
             elif part == "counter":
                 gens.append(adv.CountingGenerator())
+            elif part == "queue":
+                gens.append(adv.QueueDriver(job["seed"] * 7 + k))
             else:
                 from nrel.hive.dispatcher.instruction_generator.charging_fleet_manager import ChargingFleetManager
                 from nrel.hive.dispatcher.instruction_generator.dispatcher import Dispatcher
